@@ -8,9 +8,8 @@
 #include <fcntl.h>
 #include <chrono>
 
-#ifndef FLAVOUR
-#define FLAVOUR "plain"
-#endif
+static std::string g_flavour = "plain";
+#define FLAVOUR (g_flavour.c_str())
 
 enum Mode { M_SINGLE, M_XHOST, M_DUAL, M_C14, M_GRID, M_CT };
 struct PropDef { const char *id; Mode mode; uint32_t checks; uint64_t quick_runs, thorough_runs; };
@@ -475,30 +474,38 @@ static int do_replay(const std::string &path, bool quiet) {
 
 static std::string g_replaydir = "/verif/replays";
 int main(int argc, char **argv) {
-    std::string prop, out, replay; uint64_t seed = 1, runs = 0, first = 0; int nw = 16; bool want_fp = false, want_digest = false, quiet = false; std::string tier = "quick"; std::set<std::string> known;
+    std::string prop, out, replay; uint64_t seed = 1, runs = 0, first = 0; int nw = 16; bool want_fp = false, want_digest = false, quiet = false, dump = false; uint64_t dump_run = 0; std::string tier = "quick"; std::set<std::string> known;
     for (int i = 1; i < argc; ++i) {
         std::string a = argv[i];
         auto nxt = [&]() { return i + 1 < argc ? std::string(argv[++i]) : std::string(); };
         if (a == "--prop") prop = nxt(); else if (a == "--seed") seed = strtoull(nxt().c_str(), 0, 10); else if (a == "--runs") runs = strtoull(nxt().c_str(), 0, 10);
         else if (a == "--first") first = strtoull(nxt().c_str(), 0, 10);
         else if (a == "--workers") nw = atoi(nxt().c_str()); else if (a == "--out") out = nxt(); else if (a == "--replay") replay = nxt(); else if (a == "--replaydir") g_replaydir = nxt(); else if (a == "--outdir") g_outdir = nxt();
-        else if (a == "--fingerprints") want_fp = true; else if (a == "--digests") want_digest = true; else if (a == "--tier") tier = nxt(); else if (a == "--quiet") quiet = true;
+        else if (a == "--fingerprints") want_fp = true; else if (a == "--digests") want_digest = true; else if (a == "--tier") tier = nxt(); else if (a == "--quiet") quiet = true; else if (a == "--dump") { dump_run = strtoull(nxt().c_str(), 0, 10); dump = true; }
         else if (a == "--known") { std::string k = nxt(); size_t pos = 0; while (pos <= k.size()) { size_t c = k.find(',', pos); if (c == std::string::npos) c = k.size(); if (c > pos) known.insert(k.substr(pos, c - pos)); pos = c + 1; } }
     }
     disable_aslr_and_reexec(argv);
+    { char buf[4096]; ssize_t n = readlink("/proc/self/exe", buf, sizeof buf - 1); if (n > 0) { buf[n] = 0; std::string e(buf); size_t b = e.rfind('/'); if (b != std::string::npos && b > 0) { size_t a = e.rfind('/', b - 1); if (a != std::string::npos) g_flavour = e.substr(a + 1, b - a - 1); } } }
     seams_init();
     build_grid();
     if (!g_spec.selftest()) { fprintf(stderr, "objsim: specification model failed its self-test against the published vectors\n"); return 2; }
     if (!replay.empty()) return do_replay(replay, quiet);
     const PropDef *pd = find_prop(prop);
     if (!pd) { fprintf(stderr, "usage: objsim --prop ID [--tier quick|thorough] [--seed N] [--runs N] [--workers N] [--out FILE] | --replay FILE\n"); return 2; }
+    if (dump) {   // print the operation-level record of one seeded run (used to explain digest differences between builds)
+        Plan p = make_plan(*pd, seed, dump_run);
+        Outcome o = evaluate(*pd, p, seed, dump_run, true);
+        for (auto &l : o.trace) printf("%s\n", l.c_str());
+        printf("digest %016llx\n", (unsigned long long)o.digest);
+        return 0;
+    }
     if (!runs) runs = tier == "thorough" ? pd->thorough_runs : pd->quick_runs;
     if (pd->mode == M_GRID) { uint64_t full = 6ULL * g_grid.size(); runs = tier == "thorough" ? full : (runs ? runs : full / 3); if (tier != "thorough") first = (seed % 3) * (full / 3); }
     if (nw < 1) nw = 1; if (nw > 64) nw = 64;
     std::string cmd = "mkdir -p " + g_outdir; if (system(cmd.c_str())) {}
     g_shared = (Shared *)mmap(nullptr, sizeof(Shared), PROT_READ | PROT_WRITE, MAP_SHARED | MAP_ANONYMOUS, -1, 0);
     auto t0 = std::chrono::steady_clock::now();
-    std::string base = g_outdir + "/" + prop + "-" + FLAVOUR + "-" + std::to_string(getpid());
+    std::string base = g_outdir + "/" + prop + "-" + g_flavour + "-" + std::to_string(getpid());
     std::vector<pid_t> pids(nw); std::vector<std::string> paths(nw);
     struct Death { uint64_t run; int status; };
     std::vector<Death> deaths;
